@@ -32,6 +32,8 @@ def scenarios(rng, tier, runner):
         ls += ["ds.invalid", "ds.encode %d" % comp, "spec.decode"]
         meta["comp"] = comp
         out.append(Scenario("wire-%d" % i, ls, meta))
+    from props import c02
+    out += c02.string_family(rng, 40 if tier == "quick" else 600, lambda nsub: ["ds.invalid", "ds.encode 1", "spec.decode"])
     return out
 
 def two_pass(scn, c_out):
